@@ -44,7 +44,7 @@ func runC07(x *mc.X) {
 	method := mc.Pick(x, "method", c07Methods)
 	status := mc.Pick(x, "status", c07Statuses)
 	target := mc.Pick(x, "target-spelling", c07Targets)
-	locField := mc.Pick(x, "field", []string{"Location", "Content-Location", "both", "Location=cross-origin+Content-Location", "Content-Location=cross-origin+Location"})
+	locField := mc.Pick(x, "field", []string{"Location", "Content-Location", "both", "Location=cross-origin+Content-Location", "Content-Location=cross-origin+Location", "Location+no-store"})
 	loc := mc.Pick(x, "field-value", c07Locs)
 	if loc == "" && locField != "Location" {
 		x.Skip()
@@ -160,12 +160,15 @@ func c07Round(x *mc.X, w *world.W, round int, method string, status int, target,
 		case "Content-Location=cross-origin+Location":
 			h = append(h, [2]string{"Content-Location", "http://elsewhere.example/x"}, [2]string{"Location", loc})
 		}
-		if locField == "Location" || locField == "both" {
+		if locField == "Location" || locField == "both" || locField == "Location+no-store" {
 			h = append(h, [2]string{"Location", loc})
 		}
 		if locField == "Content-Location" || locField == "both" {
 			h = append(h, [2]string{"Content-Location", loc})
 		}
+	}
+	if locField == "Location+no-store" { // that the reply itself must not be stored does not make what it invalidates any fresher
+		h = append(h, [2]string{"Cache-Control", "no-store"})
 	}
 	answer(w, RS{Status: status, H: h})
 	req, err := http.NewRequest(method, target, nil)
